@@ -5,7 +5,7 @@ namespace Shk.Drv.C07
 open Shk.Runner
 
 def parseEv : String → Option Ev
-  | "line" => some .line | "eof" => some .eof | "exit" => some .exit | "stop" => some .stop
+  | "line" => some .line | "eof" => some .eof | "exit" => some .exit | "exitKeep" => some .exitKeep | "stop" => some .stop
   | "cancel" => some .cancel | "term" => some .term | "twoSec" => some .twoSec | _ => none
 
 /-- `runner <interruptible> <hasTerm> <watcher> <events>` → the state reached -/
